@@ -1344,7 +1344,15 @@ fn main() {
     }
     let (root, unit, out_rs, out_manifest) = (&args[1], &args[2], &args[3], &args[4]);
     let unit_name = std::path::Path::new(unit).file_name().unwrap().to_string_lossy().to_string();
-    let (pieces, bound_map) = parse_unit(unit);
+    let (mut pieces, bound_map) = parse_unit(unit);
+    // constants the changed code introduced (the driver saw `cannot find value NAME` in extracted code):
+    // copied verbatim like any `//@ item`, placed before the closing brace of the verus! block
+    if let Ok(extra) = std::env::var("XTRACT_EXTRA_ITEMS") {
+        let at = pieces.iter().rposition(|p| matches!(p, Piece::Prelude(_, _, l) if l.trim_start().starts_with("} // verus!"))).unwrap_or(pieces.len());
+        for (k, a) in extra.split(',').filter(|a| !a.is_empty()).enumerate() {
+            pieces.insert(at + k, Piece::Item(0, a.to_string()));
+        }
+    }
     let mut srcs: HashMap<String, Src> = HashMap::new();
     let mut out = Out { text: String::new(), marks: vec![], log: vec![], next_id: 0 };
     let mut functions: Vec<Value> = vec![];
